@@ -293,7 +293,7 @@ def render_plain_tokens(a, drv):
     """tokens of a syntax tree as plain texts (decimal / hexadecimal numbers), for the mutation stream"""
     ans = drv.ask("A ; " + " ".join(wire(a)))
     parts = ans.split(" | ")
-    if len(parts) != 4:
+    if len(parts) != 5:
         return None
     out = []
     for t in parts[0].split(" "):
@@ -999,7 +999,7 @@ def expr_streams(ck, real, drv, rng):
     s = ck.stream("expr_random", "random bool_expr / expr syntax trees (depth <= 5: + - * / % << >> & | ^, unary +-, int-size suffixes, "
                   "comparisons, && || !, defined(), constants referring to earlier constants), printed with minimal parentheses by the proved "
                   "printer, rendered with random number formats (dec/hex/K/'c'/yes/no), spacing and comments; non-trivial = value (not error)")
-    n = ck.budget(8000, 120000)
+    n = ck.budget(6000, 120000)
     consts = [("a", 10), ("zz", 3), ("c0de", 0x1234), ("big", 0x1_0000_0001), ("ab", 7), ("f", 0)]
     # constants referring to earlier constants: the prelude is itself part of what is evaluated
     pre = "a = 10; zz = a - 7; c0de = 0x1200 + 0x34; big = 1 << 32 | 1; ab = zz * 2 + 1; f = ab - 7;"
@@ -1019,24 +1019,29 @@ def expr_streams(ck, real, drv, rng):
         asts.append(a)
     varspec = " ".join("%s=%d" % c for c in consts)
     answers = drv.batch(["A %s ; %s" % (varspec, " ".join(wire(a))) for a in asts])
-    texts, keep = [], []
+    texts, keep, canon_cases = [], [], []
     for a, ans in zip(asts, answers):
         parts = ans.split(" | ")
-        if len(parts) != 4:
-            s.compare({"ast": repr(a)}, "4 fields", ans, "driver could not print the syntax tree")
+        if len(parts) != 5:
+            s.compare({"ast": repr(a)}, "5 fields", ans, "driver could not print the syntax tree")
             continue
-        toks, spec, model_tok, rt = parts
+        toks, spec, model_tok, rt, canon_hex = parts
         want = ref_canon(a, env)
         txt = render(toks.split(" "), rng)
         # the Lean Spec and the executable reference are the same function on every case
         s.compare({"ast": repr(a)}, want, spec, "Lean Spec.evalB differs from the harness's reference evaluator")
         s.compare({"ast": repr(a)}, spec, model_tok, "evalB (refParseB (print b)) differs from Spec.evalB b")
         s.compare({"ast": repr(a)}, "rt", rt, "refParseB (prB b) is not b")
+        # `Lexable` (Lean) and the renderer agree on which trees have a concrete syntax
+        s.compare({"ast": repr(a)}, "-" if txt is None else "text", "-" if canon_hex == "-" else "text",
+                  "Lean `Lexable` and the harness renderer disagree on whether the tree has a concrete syntax")
         if txt is None:
             s.note(repr(a), nontrivial=False, cls="int-size-after-non-literal (no concrete syntax)")
             continue
         texts.append(txt)
         keep.append((a, want))
+        if canon_hex != "-":
+            canon_cases.append((bytes.fromhex(canon_hex).decode(), a, want))
     models = drv.batch(["X b %s %s" % (hx(t), varspec) for t in texts])
     CH = 25
     for i in range(0, len(texts), CH):
@@ -1051,6 +1056,21 @@ def expr_streams(ck, real, drv, rng):
             s.compare({"text": t, "pre": pre}, gots[j], models[i + j])
             s.expect(gots[j] == want, {"text": t, "pre": pre, "ast": repr(a)},
                      "a BD constant expression does not evaluate to the value the language semantics prescribes", gots[j], want)
+
+    # ------------------------------------------------------------------ the canonical text of the proved round trip
+    s = ck.stream("expr_canonical_text", "the same trees in the CANONICAL text of the Lean `render` (the text of theorems lex_print / "
+                  "parse_print_text / eval_text): the implementation's lexer + parser must give the Spec value on exactly this text; "
+                  "non-trivial = value (not error)")
+    for i in range(0, len(canon_cases), 25):
+        chunk = canon_cases[i:i + 25]
+        if all(w != "E" for _t, _a, w in chunk):
+            gots = real.values([t for t, _a, _w in chunk], pre)
+        else:
+            gots = [real.value(t, pre) for t, _a, _w in chunk]
+        for (t, a, want), g in zip(chunk, gots):
+            s.note(t, nontrivial=want != "E", cls="error" if want == "E" else "value")
+            s.expect(g == want, {"text": t, "pre": pre, "ast": repr(a)},
+                     "the canonical text of a syntax tree does not evaluate to the value the language semantics prescribes", g, want)
 
     # ------------------------------------------------------------------ one-token mutations of valid expressions
     s = ck.stream("expr_mutated", "valid printed expressions with ONE token deleted, duplicated, replaced or two swapped: accept/reject "
@@ -1345,9 +1365,9 @@ def program_streams(ck, real, drv, rng):
                     "SB2.1 file -> decoded by C04's compiled boot ROM model (drv_c04 rom21) -> section ids, header options and the command list "
                     "must be what the BD program states (reference = Spec.cmdOf mirrored in ROM notation); non-trivial = exported")
     rom = ck.driver("drv_c04")
-    e2e_budget = ck.budget(120, 2500)
+    e2e_budget = ck.budget(80, 2500)
     real.kek_hex = Path(real.kek).read_text().strip()
-    n = ck.budget(1300, 20000)
+    n = ck.budget(1000, 20000)
     for it in range(n):
         unsup = rng.random() < 0.12
         prog = gen_program(rng, real, drv, unsup)
@@ -1828,7 +1848,7 @@ def gen_program(rng, real, drv, unsup):
     answers = drv.batch(reqs) if reqs else []
     for t, ans in zip(asts, answers):
         parts = ans.split(" | ")
-        if len(parts) != 4:
+        if len(parts) != 5:
             return None
         t.text = render(parts[0].split(" "), rng, plain=rng.random() < 0.5)
         if t.text is None:
